@@ -1,7 +1,7 @@
 (* C02 — a block's declared size equals the bytes written and the bytes consumed.
    [size f v] is the layout's own byte count (Fmt.size), defined separately from the encoder. *)
 From Model Require Import Base Fmt Segments Blocks.
-From Proofs Require Import BaseFacts FmtFacts SegFacts.
+From Proofs Require Import BaseFacts FmtFacts SegFacts SizeFacts.
 Open Scope Z_scope.
 
 (* bytes written = declared size — for every layout, every value that encodes, every junk *)
@@ -33,6 +33,31 @@ Theorem C02_size_junk_indep : forall f jk1 jk2 off1 off2 v b1 b2,
   encj f jk1 off1 v = Some b1 -> encj f jk2 off2 v = Some b2 -> length b1 = length b2.
 Proof. exact encj_length_indep. Qed.
 Print Assumptions C02_size_junk_indep.
+
+(* the library's hand-written nBytes arithmetic — a separate piece of code from _write — IS the layout's
+   size, for every number and length of segments:
+     MarkerTrack / EMGTrack / ForceTorqueTrack:  256 + 4 + 4 + sum over segments (4 + 4 + length * itemsize)
+     ForcePlatformData:                          4 + 4 + (4 + 4) * nSegments + sum (itemsize * length)      *)
+Theorem C02_track_nbytes_formula : forall n sample w label fs,
+  Forall (fun sc => Forall (fun x => size sample x = w) (snd sc)) (chunks fs 0) ->
+  size (track n sample) (VL [label; VL fs]) = nbytes_track w fs.
+Proof. exact nbytes_track_is_size. Qed.
+Print Assumptions C02_track_nbytes_formula.
+
+Theorem C02_platform_track_nbytes_formula : forall n sample w fs,
+  Forall (fun sc => Forall (fun x => size sample x = w) (snd sc)) (chunks fs 0) ->
+  size (ptrack n sample) (VL fs) = nbytes_ptrack w fs.
+Proof. exact nbytes_ptrack_is_size. Qed.
+Print Assumptions C02_platform_track_nbytes_formula.
+
+(* for EMG signals (one float per sample) without any side condition *)
+Corollary C02_emg_signal_nbytes : forall n label fs,
+  size (track n f32) (VL [label; VL fs]) = nbytes_track 4 fs.
+Proof.
+  intros n label fs. apply nbytes_track_is_size.
+  apply Forall_forall. intros sc _. apply Forall_forall. intros x _. reflexivity.
+Qed.
+Print Assumptions C02_emg_signal_nbytes.
 
 (* fixed records have the sizes the container and the block headers rely on *)
 Example C02_fixed_sizes :
